@@ -13,6 +13,7 @@ Tolerance: 1e-9 * max(1, |y|max) (float64), 2e-4 for single precision.
 import numpy as np
 
 from vf.common import Plan, crandn, held, violated, inconclusive, rng_for, nrm, pick
+from vf.monitors import prox_mon
 from vf.monitors import STATE
 from vf.monitors import prox_mon
 
@@ -38,7 +39,7 @@ CLASSES = ["L1Reg", "L1Reg-arr", "L2Reg", "L2Reg-y", "L2Reg-L1", "L2Reg-Box", "L
            "Stack-Conj", "Unitary-FFT", "Unitary-Haar", "Unitary-Transpose", "Unitary-Conj",
            "fn-soft_thresh", "fn-l1_proj", "fn-l2_proj", "fn-linf_proj", "fn-psd_proj",
            "fn-hard_thresh"]
-INPUTS = ["gauss", "gauss-big", "zeros", "boundary", "interior", "ties", "tiny"]
+INPUTS = ["gauss", "gauss-big", "zeros", "boundary", "interior", "ties", "tiny", "huge"]
 PSD_INPUTS = ["sym", "herm", "nonherm", "rankdef", "repeated", "identity", "zero", "psd",
               "negdef"]
 
@@ -54,12 +55,21 @@ def plan(tier, seed):
             for i in range(reps):
                 P.add("prox", cls=cls, inp=inp, pseed=int(rng.integers(1 << 30)),
                       cplx=bool(rng.random() < 0.6), single=bool(rng.random() < 0.2),
-                      npscalar=bool(rng.random() < 0.25))
+                      npscalar=bool(rng.random() < 0.25), big=bool(i % 4 == 3))
     return P.cases
+
+
+_BIG = [False]
 
 
 def _shape(rng, pow2=False):
     nd = int(rng.integers(1, 4))
+    if _BIG[0]:
+        # size-dependent regime: vectors past 16 / 32 / 64 entries, 2-D / 3-D arrays with
+        # several hundred entries
+        if pow2:
+            return [int(pick(rng, [16, 32, 64])) for _ in range(min(nd, 2))]
+        return [int(rng.integers(*[(16, 80), (8, 24), (4, 9)][nd - 1])) for _ in range(nd)]
     if pow2:
         return [int(pick(rng, [2, 4, 8])) for _ in range(min(nd, 2))]
     return [int(rng.integers(1, 6)) for _ in range(nd)]
@@ -169,6 +179,8 @@ def make_input(rng, inp, shape, cplx, info, alpha):
         return y * 1e3
     if inp == "tiny":
         return y * 1e-9
+    if inp == "huge":
+        return y * 1e8
     if inp == "zeros":
         return np.zeros(shape, dt)
     ph = y / np.maximum(np.abs(y), 1e-300)
@@ -288,6 +300,7 @@ def run_fn(case, rng):
 
 def run_case(case):
     rng = np.random.default_rng(case["pseed"])
+    _BIG[0] = bool(case.get("big"))
     cls, inp, cplx = case["cls"], case["inp"], case["cplx"]
     if cls.startswith("fn-"):
         return run_fn(case, rng)
@@ -317,7 +330,7 @@ def run_case(case):
         y = y.astype(np.complex64 if np.iscomplexobj(y) else np.float32)
     if case.get("npscalar") and np.ndim(alpha) == 0:
         alpha = np.float64(alpha)          # NumPy scalar instead of a Python float
-    sig = "%s|%s|%s|%dd" % (cls, inp, y.dtype.char, len(shape))
+    sig = "%s|%s|%s|%dd%s" % (cls, inp, y.dtype.char, len(shape), "|big" if case.get("big") else "")
     wit = dict(case)
     before = dict(STATE.count)
     y0 = y.copy()
@@ -327,6 +340,10 @@ def run_case(case):
         inn = e
         while inn.__cause__ is not None:
             inn = inn.__cause__
+        if prox_mon.in_chain(e, "_vf_unresolvable"):
+            return inconclusive("L1Proj radius below one ulp of the data's l1 norm (%s): the "
+                                "problem is not resolvable in this precision" % y.dtype,
+                                sig="l1proj-unresolvable")
         return violated(sig, "%r raised %s: %s for a well-formed input" % (
             P, type(inn).__name__, str(inn)[:200]), wit, mech="raised:" + cls)
     if not np.array_equal(y, y0):
@@ -342,12 +359,20 @@ def run_case(case):
             inn = e
             while inn.__cause__ is not None:
                 inn = inn.__cause__
+            if prox_mon.in_chain(e, "_vf_unresolvable"):
+                return inconclusive("L1Proj radius below one ulp of the data's l1 norm",
+                                    sig="l1proj-unresolvable")
             return violated(sig, "projection of a projected (feasible) point raised %s: %s" % (
                 type(inn).__name__, str(inn)[:200]), wit, mech="raised:" + cls)
         checks += 1
         sc = max(1.0, float(np.max(np.abs(x))) if x.size else 1.0)
         itol = 1e-8 if y.dtype in (np.float64, np.complex128) else 1e-3
-        if x2.shape != x.shape or float(np.max(np.abs(x2 - x)) if x.size else 0) > itol * sc:
+        # the first projection is computed from y (x = y - thresh(y) in several classes): its
+        # round-off is relative to max|y|, not to the - possibly far smaller - result
+        me_ = 2.3e-16 if y.dtype in (np.float64, np.complex128) else 1.2e-7
+        floor_ = 64 * me_ * (float(np.max(np.abs(y0))) if y0.size else 0.0)
+        if x2.shape != x.shape or float(np.max(np.abs(x2 - x)) if x.size else 0) > \
+                itol * sc + floor_:
             return violated(sig, "projection is not idempotent: second application moves the "
                             "point by %.3g" % float(np.max(np.abs(x2 - x))), wit,
                             mech="idempotence:" + cls)
@@ -369,6 +394,9 @@ def run_case(case):
             inn = e
             while inn.__cause__ is not None:
                 inn = inn.__cause__
+            if prox_mon.in_chain(e, "_vf_unresolvable"):
+                return inconclusive("L1Proj radius below one ulp of the data's l1 norm",
+                                    sig="l1proj-unresolvable")
             return violated(sig, "second/third call on the same prox object raised %s: %s" % (
                 type(inn).__name__, str(inn)[:200]), wit, mech="raised:" + cls)
         checks += 2
